@@ -94,7 +94,14 @@ loop 0 iter=it
 hint start
   broadcast use group_codes;
 '''),
-        stub('validate_c3_currency_consistency', 'enumerate().skip(1) iterator chain', ret='opt'),
+        opt('validate_c3_currency_consistency', 'C02',
+            'exists|i: int| 1 <= i < m.transactions@.len() && (#[trigger] m.transactions@[i]).currency_amount.currency@ != m.transactions@[0].currency_amount.currency@',
+            doc='C3 (C02): the currency code must be the same for all occurrences of field 32B',
+            extra='''loop 0
+  invariant forall|j: int| 1 <= j < idx ==> (#[trigger] self.transactions@[j]).currency_amount.currency@ == self.transactions@[0].currency_amount.currency@, first_currency@ == self.transactions@[0].currency_amount.currency@, self.transactions@.len() >= 1
+hint start
+  broadcast use group_codes;
+'''),
     ])
 
 
@@ -139,9 +146,279 @@ pub open spec fn any_52(m: &MT101) -> bool { exists|i: int| 0 <= i < m.transacti
         each('validate_c7_intermediary', 'transactions', 'MT101Transaction',
              'one_if(t.field_56.is_some() && t.field_57.is_none(), "D65"@)',
              doc='C7 (D65): 56a present => 57a present'),
-        stub('validate_c8_currency_consistency', 'enumerate().skip(1) iterator chain', ret='opt'),
+        opt('validate_c8_currency_consistency', 'D98',
+            'm.field_21r.is_some() && exists|i: int| 1 <= i < m.transactions@.len() && (#[trigger] m.transactions@[i]).field_32b.currency@ != m.transactions@[0].field_32b.currency@',
+            doc='C8 (D98): if field 21R is present, the currency code of field 32B must be the same in all occurrences of sequence B',
+            extra='''body replace "self.field_21r.as_ref()?;" => "if self.field_21r.is_none() { return None; }"
+loop 0
+  invariant forall|j: int| 1 <= j < idx ==> (#[trigger] self.transactions@[j]).field_32b.currency@ == self.transactions@[0].field_32b.currency@, first_currency@ == self.transactions@[0].field_32b.currency@, self.transactions@.len() >= 1, self.field_21r.is_some()
+hint start
+  broadcast use group_codes;
+'''),
         each('validate_c9_zero_amount', 'transactions', 'MT101Transaction',
              'if zero_amount(t) { if has_equi(t) { one_if(t.field_33b.is_none(), "E54"@) } else { one_if(t.field_33b.is_some(), "E54"@) + one_if(t.field_21f.is_some(), "E54"@) } } else { seq![] }',
              doc='C9 (E54): amount zero & 23E EQUI => 33B mandatory; amount zero & no EQUI => 33B and 21F not allowed'),
         stub('validate_field_23e', 'HashSet / nested code-table loops'),
+    ])
+
+
+def _any_b(T, Tx, f):
+    return 'exists|i: int| 0 <= i < m.transactions@.len() && (#[trigger] m.transactions@[i]).%s.is_some()' % f
+
+
+# ---- MT104 (direct debit): presence rules between sequence A and the occurrences of sequence B
+_B104 = [('21e', 'field_21e'), ('26t', 'field_26t'), ('52a', 'field_52'), ('71a', 'field_71a'), ('77b', 'field_77b')]
+TYPES['104'] = dict(
+    preamble='''
+pub open spec fn any_b(m: &MT104, p: spec_fn(MT104Transaction) -> bool) -> bool { exists|i: int| 0 <= i < m.transactions@.len() && p(#[trigger] m.transactions@[i]) }
+pub open spec fn any_cred(m: &MT104) -> bool { exists|i: int| 0 <= i < m.transactions@.len() && (#[trigger] m.transactions@[i]).creditor_tx.is_some() }
+pub open spec fn all_cred(m: &MT104) -> bool { m.transactions@.len() > 0 && forall|i: int| 0 <= i < m.transactions@.len() ==> (#[trigger] m.transactions@[i]).creditor_tx.is_some() }
+pub open spec fn any_ip(m: &MT104) -> bool { exists|i: int| 0 <= i < m.transactions@.len() && (#[trigger] m.transactions@[i]).instructing_party_tx.is_some() }
+pub open spec fn any_21e(m: &MT104) -> bool { exists|i: int| 0 <= i < m.transactions@.len() && (#[trigger] m.transactions@[i]).field_21e.is_some() }
+pub open spec fn any_26t(m: &MT104) -> bool { exists|i: int| 0 <= i < m.transactions@.len() && (#[trigger] m.transactions@[i]).field_26t.is_some() }
+pub open spec fn any_52(m: &MT104) -> bool { exists|i: int| 0 <= i < m.transactions@.len() && (#[trigger] m.transactions@[i]).field_52.is_some() }
+pub open spec fn any_71a(m: &MT104) -> bool { exists|i: int| 0 <= i < m.transactions@.len() && (#[trigger] m.transactions@[i]).field_71a.is_some() }
+pub open spec fn any_77b(m: &MT104) -> bool { exists|i: int| 0 <= i < m.transactions@.len() && (#[trigger] m.transactions@[i]).field_77b.is_some() }
+pub open spec fn rtnd_a(m: &MT104) -> bool { m.field_23e.is_some() && m.field_23e.unwrap().instruction_code@ == "RTND"@ }
+pub open spec fn any_71f(m: &MT104) -> bool { exists|i: int| 0 <= i < m.transactions@.len() && (#[trigger] m.transactions@[i]).field_71f.is_some() }
+pub open spec fn any_71g(m: &MT104) -> bool { exists|i: int| 0 <= i < m.transactions@.len() && (#[trigger] m.transactions@[i]).field_71g.is_some() }
+/// C6 (D79): 71F (resp. 71G) in some occurrence of sequence B <=> 71F (resp. 71G) in sequence C
+pub open spec fn c6_spec(m: &MT104) -> Seq<Seq<char>> {
+    one_if(any_71f(m) && m.field_71f.is_none(), "D79"@) + one_if(!any_71f(m) && m.field_71f.is_some(), "D79"@)
+    + one_if(any_71g(m) && m.field_71g.is_none(), "D79"@) + one_if(!any_71g(m) && m.field_71g.is_some(), "D79"@)
+}
+/// C3 (D73): a field present in sequence A must not be present in any occurrence of sequence B (one error per field, in
+/// the order 21E, 26T, 52a, 71A, 77B, 50a C/L)
+pub open spec fn c3_spec(m: &MT104) -> Seq<Seq<char>> {
+    one_if(m.field_21e.is_some() && any_21e(m), "D73"@) + one_if(m.field_26t.is_some() && any_26t(m), "D73"@) + one_if(m.field_52.is_some() && any_52(m), "D73"@)
+    + one_if(m.field_71a.is_some() && any_71a(m), "D73"@) + one_if(m.field_77b.is_some() && any_77b(m), "D73"@) + one_if(m.instructing_party.is_some() && any_ip(m), "D73"@)
+}
+/// C4 (D77): 21E present => 50a (A/K) present in the same sequence; sequence A first, then one error per offending occurrence of B
+pub open spec fn c4_fold(acc: Seq<Seq<char>>, v: Seq<MT104Transaction>, n: int) -> Seq<Seq<char>>
+    decreases n
+{ if n <= 0 { acc } else { c4_fold(acc, v, n - 1) + one_if(v[n - 1].field_21e.is_some() && v[n - 1].creditor_tx.is_none(), "D77"@) } }
+pub open spec fn c4_spec(m: &MT104) -> Seq<Seq<char>> {
+    c4_fold(one_if(m.field_21e.is_some() && m.creditor.is_none(), "D77"@), m.transactions@, m.transactions@.len() as int)
+}
+''',
+    helpers=[
+        ('has_sequence_c', 'r == self.field_32b.is_some()'),
+        ('has_rtnd_in_seq_a', 'r == rtnd_a(self)'),
+        ('has_creditor_in_seq_a', 'r == self.creditor.is_some()'),
+        ('has_creditor_in_all_seq_b', 'r == all_cred(self)'),
+        ('has_creditor_in_any_seq_b', 'r == any_cred(self)'),
+        ('has_instructing_party_in_seq_a', 'r == self.instructing_party.is_some()'),
+        ('has_instructing_party_in_any_seq_b', 'r == any_ip(self)'),
+        ('has_21e_in_seq_a', 'r == self.field_21e.is_some()'),
+        ('has_21e_in_any_seq_b', 'r == any_21e(self)'),
+        ('has_26t_in_seq_a', 'r == self.field_26t.is_some()'),
+        ('has_26t_in_any_seq_b', 'r == any_26t(self)'),
+        ('has_52a_in_seq_a', 'r == self.field_52.is_some()'),
+        ('has_52a_in_any_seq_b', 'r == any_52(self)'),
+        ('has_71a_in_seq_a', 'r == self.field_71a.is_some()'),
+        ('has_71a_in_any_seq_b', 'r == any_71a(self)'),
+        ('has_77b_in_seq_a', 'r == self.field_77b.is_some()'),
+        ('has_77b_in_any_seq_b', 'r == any_77b(self)'),
+        ('has_71f_in_any_seq_b', 'r == any_71f(self)'),
+        ('has_71f_in_seq_c', 'r == self.field_71f.is_some()'),
+        ('has_71g_in_any_seq_b', 'r == any_71g(self)'),
+        ('has_71g_in_seq_c', 'r == self.field_71g.is_some()'),
+    ],
+    rules=[
+        stub('validate_c1_field_23e_dependencies', 'no oracle written yet'),
+        opt('validate_c2_creditor_field', 'C76', '(m.creditor.is_some() && any_cred(m)) || (m.creditor.is_none() && !all_cred(m))',
+            doc='C2 (C76): field 50a (A/K) in sequence A or in every occurrence of sequence B, never in both, never in neither'),
+        vec('validate_c3_mutual_exclusivity', 'c3_spec', extra='hint start\n  broadcast use group_codes;'),
+        vec('validate_c4_registration_reference', 'c4_spec', extra='''
+body replace "for (idx, transaction) in self.transactions.iter().enumerate()" => "for transaction in &self.transactions"
+body replace "idx + 1" => "0usize"
+loop 0 iter=it
+  invariant codes(errors@) == c4_fold(one_if(self.field_21e.is_some() && self.creditor.is_none(), "D77"@), self.transactions@, it.index@ as int)
+hint start
+  broadcast use group_codes;
+'''),
+        opt('validate_c5_field_72_rtnd', 'C82', '(rtnd_a(m) && m.field_72.is_none()) || (!rtnd_a(m) && m.field_72.is_some())',
+            doc='C5 (C82): field 72 present exactly when 23E of sequence A is RTND'),
+        vec('validate_c6_charges_dependencies', 'c6_spec', extra='hint start\n  broadcast use group_codes;'),
+        stub('validate_c7_currency_amount_difference', 'floating point difference'),
+        each('validate_c8_exchange_rate', 'transactions', 'MT104Transaction',
+             'one_if(if t.field_33b.is_some() { if t.field_32b.currency@ != t.field_33b.unwrap().currency@ { t.field_36.is_none() } else { t.field_36.is_some() } } else { t.field_36.is_some() }, "D75"@)',
+             doc='C8 (D75): 33B present and currencies differ => 36 mandatory; 33B present and same currency => 36 not allowed; 33B absent => 36 not allowed'),
+        stub('validate_c9_field_19', 'floating point sum', ret='opt'),
+        stub('validate_c10_field_19_amount', 'no oracle written yet', ret='opt'),
+        stub('validate_c11_currency_consistency', 'no oracle written yet'),
+        stub('validate_c12_rfdd_comprehensive', 'no oracle written yet'),
+        stub('validate_field_23e_seq_a', 'code tables / HashSet'),
+        stub('validate_field_23e_seq_b', 'code tables / HashSet'),
+    ])
+
+# ---- MT110: cheque advice
+TYPES['110'] = dict(
+    preamble='pub open spec fn ccy110(c: MT110Cheque) -> Seq<char> { match c.field_32 { Field32AB::A(a) => a.currency@, Field32AB::B(b) => b.currency@ } }',
+    rules=[
+        opt('validate_c1_max_repetitions', 'T10', 'm.cheques@.len() > 10', doc='C1 (T10): the repetitive sequence must not be present more than ten times'),
+        opt('validate_c2_currency_consistency', 'C02',
+            'exists|i: int| 1 <= i < m.cheques@.len() && ccy110(#[trigger] m.cheques@[i]) != ccy110(m.cheques@[0])',
+            doc='C2 (C02): the currency code in field 32a must be the same for all occurrences',
+            extra='''loop 0
+  invariant forall|j: int| 1 <= j < idx ==> ccy110(#[trigger] self.cheques@[j]) == ccy110(self.cheques@[0]), first_currency@ == ccy110(self.cheques@[0]), self.cheques@.len() >= 1
+hint start
+  broadcast use group_codes;
+'''),
+    ])
+
+# ---- MT192 / MT292 / MT296: C1 on field 79 vs the copy of the original fields
+TYPES['192'] = dict(
+    helpers=[('has_field_79', 'r == self.field_79.is_some()')],
+    rules=[
+        opt('validate_c1_field_79_or_copy', 'C25', 'm.field_79.is_none()',
+            doc='C1 (C25): field 79 or a copy of the mandatory fields must be present (the copy is not represented: 79 is required)'),
+        stub('validate_field_79_codes', 'split-based code extraction'),
+    ])
+
+# ---- MT204: C3 (T10)
+TYPES['204'] = dict(
+    scalars=['MAX_SEQUENCE_B_OCCURRENCES'],
+    rules=[
+        stub('validate_c1_sum_of_amounts', 'floating point sum', ret='opt'),
+        stub('validate_c2_currency_consistency', 'HashSet of currencies', ret='opt'),
+        opt('validate_c3_max_sequences', 'T10', 'm.transactions@.len() > 10', doc='C3 (T10): sequence B must not appear more than ten times'),
+    ])
+
+# ---- MT935: C1 (T10)
+TYPES['935'] = dict(
+    helpers=[('has_field_23', 'r == seq.field_23.is_some()'), ('has_field_25', 'r == seq.field_25.is_some()')],
+    rules=[
+        opt('validate_c1_sequence_occurrence', 'T10', 'm.rate_changes@.len() == 0 || m.rate_changes@.len() > 10',
+            doc='C1 (T10): the repetitive sequence must appear at least once and not more than ten times'),
+        each('validate_c2_field_23_25_mutual_exclusivity', 'rate_changes', 'MT935RateChange', 'one_if(t.field_23.is_some() == t.field_25.is_some(), "C83"@)',
+             doc='C2 (C83): either field 23 or field 25, but not both, must be present in each repetitive sequence'),
+        stub('validate_field_23', 'no oracle written yet'),
+        stub('validate_field_37h', 'no oracle written yet'),
+    ])
+
+
+# ---- MT107 (general direct debit): the presence rules parallel to MT104
+TYPES['107'] = dict(
+    preamble='''
+pub open spec fn any_cred(m: &MT107) -> bool { exists|i: int| 0 <= i < m.transactions@.len() && (#[trigger] m.transactions@[i]).creditor_tx.is_some() }
+pub open spec fn all_cred(m: &MT107) -> bool { m.transactions@.len() > 0 && forall|i: int| 0 <= i < m.transactions@.len() ==> (#[trigger] m.transactions@[i]).creditor_tx.is_some() }
+pub open spec fn any_23e(m: &MT107) -> bool { exists|i: int| 0 <= i < m.transactions@.len() && (#[trigger] m.transactions@[i]).field_23e.is_some() }
+pub open spec fn all_23e(m: &MT107) -> bool { m.transactions@.len() > 0 && forall|i: int| 0 <= i < m.transactions@.len() ==> (#[trigger] m.transactions@[i]).field_23e.is_some() }
+pub open spec fn any_ip(m: &MT107) -> bool { exists|i: int| 0 <= i < m.transactions@.len() && (#[trigger] m.transactions@[i]).instructing_party_tx.is_some() }
+pub open spec fn any_21e(m: &MT107) -> bool { exists|i: int| 0 <= i < m.transactions@.len() && (#[trigger] m.transactions@[i]).field_21e.is_some() }
+pub open spec fn any_26t(m: &MT107) -> bool { exists|i: int| 0 <= i < m.transactions@.len() && (#[trigger] m.transactions@[i]).field_26t.is_some() }
+pub open spec fn any_52(m: &MT107) -> bool { exists|i: int| 0 <= i < m.transactions@.len() && (#[trigger] m.transactions@[i]).field_52.is_some() }
+pub open spec fn any_71a(m: &MT107) -> bool { exists|i: int| 0 <= i < m.transactions@.len() && (#[trigger] m.transactions@[i]).field_71a.is_some() }
+pub open spec fn any_77b(m: &MT107) -> bool { exists|i: int| 0 <= i < m.transactions@.len() && (#[trigger] m.transactions@[i]).field_77b.is_some() }
+pub open spec fn any_71f(m: &MT107) -> bool { exists|i: int| 0 <= i < m.transactions@.len() && (#[trigger] m.transactions@[i]).field_71f.is_some() }
+pub open spec fn any_71g(m: &MT107) -> bool { exists|i: int| 0 <= i < m.transactions@.len() && (#[trigger] m.transactions@[i]).field_71g.is_some() }
+pub open spec fn rtnd_a(m: &MT107) -> bool { m.field_23e.is_some() && m.field_23e.unwrap().instruction_code@ == "RTND"@ }
+/// C2 (D73): order 21E, 26T, 77B, 71A, 52a, 50a C/L
+pub open spec fn c2_spec(m: &MT107) -> Seq<Seq<char>> {
+    one_if(m.field_21e.is_some() && any_21e(m), "D73"@) + one_if(m.field_26t.is_some() && any_26t(m), "D73"@) + one_if(m.field_77b.is_some() && any_77b(m), "D73"@)
+    + one_if(m.field_71a.is_some() && any_71a(m), "D73"@) + one_if(m.field_52.is_some() && any_52(m), "D73"@) + one_if(m.instructing_party.is_some() && any_ip(m), "D73"@)
+}
+pub open spec fn c3_fold(acc: Seq<Seq<char>>, v: Seq<MT107Transaction>, n: int) -> Seq<Seq<char>>
+    decreases n
+{ if n <= 0 { acc } else { c3_fold(acc, v, n - 1) + one_if(v[n - 1].field_21e.is_some() && v[n - 1].creditor_tx.is_none(), "D77"@) } }
+pub open spec fn c3_spec(m: &MT107) -> Seq<Seq<char>> {
+    c3_fold(one_if(m.field_21e.is_some() && m.creditor.is_none(), "D77"@), m.transactions@, m.transactions@.len() as int)
+}
+/// C1 (D86): 23E, and likewise 50a (A/K), in sequence A or in every occurrence of sequence B, never in both
+pub open spec fn c1_spec(m: &MT107) -> Seq<Seq<char>> {
+    one_if((m.field_23e.is_some() && any_23e(m)) || (m.field_23e.is_none() && !all_23e(m)), "D86"@)
+    + one_if((m.creditor.is_some() && any_cred(m)) || (m.creditor.is_none() && !all_cred(m)), "D86"@)
+}
+pub open spec fn c5_spec(m: &MT107) -> Seq<Seq<char>> {
+    one_if(any_71f(m) && m.field_71f.is_none(), "D79"@) + one_if(m.field_71f.is_some() && !any_71f(m), "D79"@)
+    + one_if(any_71g(m) && m.field_71g.is_none(), "D79"@) + one_if(m.field_71g.is_some() && !any_71g(m), "D79"@)
+}
+''',
+    helpers=[
+        ('has_23e_in_seq_a', 'r == self.field_23e.is_some()'),
+        ('has_23e_in_all_seq_b', 'r == all_23e(self)'),
+        ('has_23e_in_any_seq_b', 'r == any_23e(self)'),
+        ('has_creditor_in_seq_a', 'r == self.creditor.is_some()'),
+        ('has_creditor_in_all_seq_b', 'r == all_cred(self)'),
+        ('has_creditor_in_any_seq_b', 'r == any_cred(self)'),
+        ('has_instructing_party_in_seq_a', 'r == self.instructing_party.is_some()'),
+        ('has_instructing_party_in_any_seq_b', 'r == any_ip(self)'),
+        ('has_21e_in_seq_a', 'r == self.field_21e.is_some()'),
+        ('has_21e_in_any_seq_b', 'r == any_21e(self)'),
+        ('has_26t_in_seq_a', 'r == self.field_26t.is_some()'),
+        ('has_26t_in_any_seq_b', 'r == any_26t(self)'),
+        ('has_77b_in_seq_a', 'r == self.field_77b.is_some()'),
+        ('has_77b_in_any_seq_b', 'r == any_77b(self)'),
+        ('has_71a_in_seq_a', 'r == self.field_71a.is_some()'),
+        ('has_71a_in_any_seq_b', 'r == any_71a(self)'),
+        ('has_52a_in_seq_a', 'r == self.field_52.is_some()'),
+        ('has_52a_in_any_seq_b', 'r == any_52(self)'),
+        ('has_71f_in_seq_b', 'r == any_71f(self)'),
+        ('has_71f_in_seq_c', 'r == self.field_71f.is_some()'),
+        ('has_71g_in_seq_b', 'r == any_71g(self)'),
+        ('has_71g_in_seq_c', 'r == self.field_71g.is_some()'),
+    ],
+    rules=[
+        vec('validate_c1_23e_and_creditor_placement', 'c1_spec', extra='hint start\n  broadcast use group_codes;'),
+        vec('validate_c2_seq_a_b_mutual_exclusivity', 'c2_spec', extra='hint start\n  broadcast use group_codes;'),
+        vec('validate_c3_registration_creditor_dependency', 'c3_spec', extra='''
+body replace "for (idx, transaction) in self.transactions.iter().enumerate()" => "for transaction in &self.transactions"
+body replace "idx + 1" => "0usize"
+loop 0 iter=it
+  invariant codes(errors@) == c3_fold(one_if(self.field_21e.is_some() && self.creditor.is_none(), "D77"@), self.transactions@, it.index@ as int)
+hint start
+  broadcast use group_codes;
+'''),
+        opt('validate_c4_rtnd_field_72_dependency', 'C82', '(rtnd_a(m) && m.field_72.is_none()) || (!rtnd_a(m) && m.field_72.is_some())',
+            doc='C4 (C82): field 72 present exactly when 23E of sequence A is RTND'),
+        vec('validate_c5_charges_fields_consistency', 'c5_spec', extra='hint start\n  broadcast use group_codes;'),
+        stub('validate_c6_field_33b_32b_comparison', 'floating point difference'),
+        each('validate_c7_exchange_rate_dependency', 'transactions', 'MT107Transaction',
+             'one_if(if t.field_33b.is_some() { if t.field_32b.currency@ != t.field_33b.unwrap().currency@ { t.field_36.is_none() } else { t.field_36.is_some() } } else { t.field_36.is_some() }, "D75"@)',
+             doc='C7 (D75): 33B present and currencies differ => 36 mandatory; otherwise 36 not allowed'),
+        stub('validate_c8_sum_of_amounts', 'floating point sum'),
+        stub('validate_c9_currency_consistency', 'no oracle written yet'),
+        stub('validate_field_23e', 'code tables / HashSet'),
+    ])
+
+
+# ---- MT920 (request message): one group of errors per repetitive sequence
+TYPES['920'] = dict(
+    consts=['VALID_MESSAGE_TYPES'],
+    preamble='''
+/// T88: field 12 must contain 940, 941, 942 or 950
+pub open spec fn valid_type(c: Seq<char>) -> bool { c == "940"@ || c == "941"@ || c == "942"@ || c == "950"@ }
+''',
+    rules=[
+        each('validate_t88_message_type', 'sequence', 'MT920Sequence', 'one_if(!valid_type(t.field_12.type_code@), "T88"@)',
+             doc='T88: field 12 must contain one of 940, 941, 942, 950',
+             extra='hint start\n  proof { reveal_strlit("940"); reveal_strlit("941"); reveal_strlit("942"); reveal_strlit("950"); }'),
+        each('validate_c1_field_34f_requirement', 'sequence', 'MT920Sequence', 'one_if(t.field_12.type_code@ == "942"@ && t.floor_limit_debit.is_none(), "C22"@)',
+             doc='C1 (C22): field 12 = 942 => field 34F debit (or debit and credit) must be present'),
+        each('validate_c2_dc_mark_usage', 'sequence', 'MT920Sequence',
+             'if t.floor_limit_debit.is_some() && t.floor_limit_credit.is_none() { one_if(t.floor_limit_debit.unwrap().indicator.is_some(), "C23"@) } else if t.floor_limit_debit.is_some() && t.floor_limit_credit.is_some() { one_if(t.floor_limit_debit.unwrap().indicator != Some(\'D\'), "C23"@) + one_if(t.floor_limit_credit.unwrap().indicator != Some(\'C\'), "C23"@) } else { seq![] }',
+             doc='C2 (C23): one 34F => no D/C mark; two 34F => first D, second C'),
+        each('validate_c3_currency_consistency', 'sequence', 'MT920Sequence',
+             'one_if(t.floor_limit_debit.is_some() && t.floor_limit_credit.is_some() && t.floor_limit_debit.unwrap().currency@ != t.floor_limit_credit.unwrap().currency@, "C40"@)',
+             doc='C3 (C40): the currency of the two 34F of one sequence must be the same'),
+    ])
+
+
+# ---- MT940 / MT942: the structural rules (documented as guaranteed by the data model: never reported) and the D/C mark rule
+TYPES['940'] = dict(
+    preamble='pub open spec fn none_spec(m: &MT940) -> Seq<Seq<char>> { seq![] }',
+    rules=[
+        vec('validate_c1_field_86_follows_61', 'none_spec', doc='C1 (C24): documented as enforced by the message structure: never reported'),
+        stub('validate_c2_currency_consistency', 'byte slicing of a struct field (needs an ASCII invariant on the message)'),
+    ])
+TYPES['942'] = dict(
+    preamble='pub open spec fn none_spec(m: &MT942) -> Seq<Seq<char>> { seq![] }',
+    rules=[
+        stub('validate_c1_currency_consistency', 'byte slicing of a struct field (needs an ASCII invariant on the message)'),
+        opt('validate_c2_floor_limit_dc_mark', 'C23',
+            "if m.floor_limit_credit.is_some() { m.floor_limit_debit.indicator != Some('D') || m.floor_limit_credit.unwrap().indicator != Some('C') } else { m.floor_limit_debit.indicator.is_some() }",
+            doc='C2 (C23): one 34F => no D/C mark; two 34F => first D, second C', extra='fmtcat *'),
+        vec('validate_c3_field_86_positioning', 'none_spec', doc='C3 (C24): documented as enforced by the message structure: never reported',
+            extra='loop 0 iter=it\n  invariant errors@.len() == 0\nhint start\n  broadcast use group_codes;'),
     ])
